@@ -44,6 +44,29 @@ Definition k4b_case : case :=
                      s_run := run_of (s "echo $(P) $(VAR1)") (VStr []) [] |} ];
      c_order := [0] |}.
 
+(** K4c: a step name with a blank: WSREGEX never recognises its workspace token
+    (corpus/C09/k4c_space_name.json) *)
+Definition k4c_case : case :=
+  {| c_root := s "/out"; c_shell := s "/bin/bash"; c_env := std_env (s "/out"); c_params := [];
+     c_steps := [ {| s_name := s "run sim"; s_desc := s "first";
+                     s_run := run_of (s "echo 1 > out.txt") (VStr []) [] |};
+                  {| s_name := s "collect"; s_desc := s "second";
+                     s_run := run_of (s "ls $(run sim.workspace)") (VList [VStr (s "run sim_*")]) [] |} ];
+     c_order := [0; 1] |}.
+
+(** a funnel parent whose name [make_safe_path] rewrites, inside the hypotheses *)
+Definition colon_case : case :=
+  {| c_root := s "/out"; c_shell := s "/bin/bash"; c_env := std_env (s "/out");
+     c_params := [ {| p_key := s "P"; p_name := []; p_values := [s "1"; s "2"]; p_label := LFmt (s "P.%%") |} ];
+     c_steps := [ {| s_name := s "run:sim"; s_desc := s "first";
+                     s_run := run_of (s "sim $(P)") (VStr []) [] |};
+                  {| s_name := s "collect"; s_desc := s "unparameterised consumer";
+                     s_run := run_of (s "ls $(run:sim.workspace)") (VList [VStr (s "run:sim_*")])
+                                     (s "ls -l $(run:sim.workspace)") |};
+                  {| s_name := s "compare"; s_desc := s "parameterised consumer";
+                     s_run := run_of (s "cmp $(P) $(run:sim.workspace)") (VList [VStr (s "run:sim_*")]) [] |} ];
+     c_order := [0; 1; 2] |}.
+
 (** a study inside the hypotheses: environment variable, parameter with value /
     label / name tokens, own workspace, an ordinary and a funnel reference *)
 Definition good_case : case :=
@@ -82,6 +105,23 @@ Lemma k4b_facts :
     Some (script_text (s "/bin/bash") (s "echo /out/a/l0/x data")) /\
   script_of (s "a_l1") (stage Model k4b_case) =
     Some (script_text (s "/bin/bash") (s "echo $(VAR1) data")).
+Proof. vm_compute. repeat split; reflexivity. Qed.
+
+Lemma k4c_facts :
+  valid_case k4c_case = true /\ sig_K4a k4c_case = false /\ sig_K4c k4c_case = true /\
+  hyg k4c_case = false /\ C09_ok k4c_case (stage Model k4c_case) = false /\
+  script_of (s "collect") (stage Model k4c_case) =
+    Some (script_text (s "/bin/bash") (s "ls $(run sim.workspace)")).
+Proof. vm_compute. repeat split; reflexivity. Qed.
+
+Lemma colon_facts :
+  valid_case colon_case = true /\ hyg colon_case = true /\ sig_K4c colon_case = false /\
+  script_of (s "collect") (stage Model colon_case) =
+    Some (script_text (s "/bin/bash") (s "ls /out/runsim")) /\
+  script_of (s "compare_P.2") (stage Model colon_case) =
+    Some (script_text (s "/bin/bash") (s "cmp 2 /out/runsim")) /\
+  script_of (s "run:sim_P.2") (stage Model colon_case) =
+    Some (script_text (s "/bin/bash") (s "sim 2")).
 Proof. vm_compute. repeat split; reflexivity. Qed.
 
 Lemma good_facts :
@@ -133,6 +173,13 @@ Theorem K4b_refuted : exists c : case,
 Proof.
   exists k4b_case. destruct k4b_facts as [A [B [C0 [D _]]]].
   unfold sig_K4b. rewrite C0. repeat split; assumption.
+Qed.
+
+Theorem K4c_refuted : exists c : case,
+  valid_case c = true /\ sig_K4a c = false /\ sig_K4c c = true /\
+  C09_ok c (stage Model c) = false.
+Proof.
+  exists k4c_case. destruct k4c_facts as [A [B [C0 [_ [D _]]]]]. repeat split; assumption.
 Qed.
 
 Lemma core_example :
